@@ -1,4 +1,5 @@
 import Geo.Props.C17
+import Geo.Props.C17b
 #print axioms Geo.fanTerm_is_det
 #print axioms Geo.T17_fan_eq_shoelace
 #print axioms Geo.T17_crs_antisymm
@@ -6,3 +7,19 @@ import Geo.Props.C17
 #print axioms Geo.T17_binet_cauchy
 #print axioms Geo.T17_cayley_menger_triangle
 #print axioms Geo.T17_midpoint
+#print axioms Geo.foldl_add_acc'
+#print axioms Geo.range_chain
+#print axioms Geo.chainSum'_eq
+#print axioms Geo.zip_cycle_sum
+#print axioms Geo.shoelace2_cycle
+#print axioms Geo.polyFan2_chain
+#print axioms Geo.T17_area_fan_is_shoelace
+#print axioms Geo.fan_moment_x
+#print axioms Geo.fan_moment_y
+#print axioms Geo.mom_antisymm
+#print axioms Geo.fan_chain_general
+#print axioms Geo.polyMoment6_chain
+#print axioms Geo.zip_cycle_sumG
+#print axioms Geo.foldl_vadd_pairs
+#print axioms Geo.centroidNum_cycle
+#print axioms Geo.T17_centroid_fan
